@@ -139,6 +139,28 @@ def check_lemma(env, inst, timeout_ms=5000, subs=None):
                 "replay": {"k": "lemma", "strat": strat, "formula": bp.to_bp(f),
                            "map": [[bp.to_bp(k), bp.to_bp(v)] for k, v in mp]}}
     res = {"name": name, "status": "ok", "nontrivial": g is not f}
+    if strat == "mgs" and mp:
+        # the environment's shared substituter (the one FNode.substitute / shortcuts use), right after a call on the same
+        # formula that fails half-way (ill-sorted replacement): must give the very same object as the fresh substituter
+        m = env.formula_manager
+        bad = dict(sigma)
+        k0 = mp[0][0]
+        bad[k0] = m.Int(0) if k0.get_type().is_bool_type() else m.Bool(True)
+        try:
+            env.substituter.substitute(f, bad)
+        except Exception:
+            pass
+        try:
+            g2 = env.substituter.substitute(f, sigma)
+        except Exception as e:
+            g2 = e
+        if g2 is not g:
+            return {"name": name, "status": "viol", "signature": "substitute/shared-after-failure",
+                    "describe": "env.substituter.substitute(%s, %s) right after a failing substitution of the same formula gives %s, a "
+                                "fresh substituter gives %s" % (f.serialize(), {str(k): str(v) for k, v in mp},
+                                                                 g2 if isinstance(g2, Exception) else g2.serialize(), g.serialize()),
+                    "replay": {"k": "lemma", "strat": strat, "formula": bp.to_bp(f),
+                               "map": [[bp.to_bp(k), bp.to_bp(v)] for k, v in mp]}}
     if g.get_type() != f.get_type():
         return {"name": name, "status": "viol", "signature": "substitute/%s/type" % strat,
                 "describe": "%s.substitute(%s, %s) changes type" % (strat, f.serialize(), sigma),
